@@ -100,6 +100,30 @@ fn is_circuit_component(
     Ok(CIRCUIT_COMPONENTS.contains(&context.get_type_info(ty)?.long_id.generic_id))
 }
 
+/// Returns the input types of the gate type `long_id`, validating their kind and number, as a gate
+/// type that is declared but was not specialized yet was not validated.
+fn get_gate_inputs(
+    long_id: &ConcreteTypeLongId,
+) -> Result<Vec<&ConcreteTypeId>, SpecializationError> {
+    let n_inputs = if long_id.generic_id == InverseGate::ID {
+        1
+    } else if [AddModGate::ID, SubModGate::ID, MulModGate::ID].contains(&long_id.generic_id) {
+        2
+    } else {
+        return Err(SpecializationError::UnsupportedGenericArg);
+    };
+    require(long_id.generic_args.len() == n_inputs)
+        .ok_or(SpecializationError::WrongNumberOfGenericArgs)?;
+    long_id
+        .generic_args
+        .iter()
+        .map(|generic_arg| match generic_arg {
+            GenericArg::Type(ty) => Ok(ty),
+            _ => Err(SpecializationError::UnsupportedGenericArg),
+        })
+        .collect()
+}
+
 /// Circuit input type.
 #[derive(Default)]
 pub struct CircuitInput {}
@@ -1062,6 +1086,9 @@ fn get_circuit_info(
         .map(|generic_arg| (extract_matches!(generic_arg, GenericArg::Type).clone(), true))
         .collect();
 
+    // The gates that were visited once, and were not yet given a value.
+    let mut pending_gates = UnorderedHashSet::<ConcreteTypeId>::default();
+
     while let Some((ty, first_visit)) = stack.pop() {
         let long_id = &context.get_type_info(&ty)?.long_id;
 
@@ -1069,11 +1096,13 @@ fn get_circuit_info(
             // The value was already processed.
             continue;
         }
+        // A first visit of a gate that is still pending means the gate is its own (transitive)
+        // input, which is possible as declared types may refer to later declarations.
+        if first_visit && !pending_gates.insert(ty.clone()) {
+            return Err(SpecializationError::UnsupportedGenericArg);
+        }
 
-        let gate_inputs = long_id
-            .generic_args
-            .iter()
-            .map(|generic_arg| extract_matches!(generic_arg, GenericArg::Type));
+        let gate_inputs = get_gate_inputs(long_id)?.into_iter();
 
         if first_visit {
             stack.push((ty, false));
@@ -1135,15 +1164,12 @@ fn parse_circuit_inputs<'a>(
             let idx = args_as_single_value(&long_id.generic_args)?
                 .to_usize()
                 .ok_or(SpecializationError::UnsupportedGenericArg)?;
-            assert!(inputs.insert(idx, ty).is_none());
+            // Two declared input types may have the same index, as long as the latter was not
+            // specialized yet.
+            require(inputs.insert(idx, ty).is_none())
+                .ok_or(SpecializationError::UnsupportedGenericArg)?;
         } else {
-            // generic_id must be a gate. This was validated in `validate_output_tuple`.
-            stack.extend(
-                long_id
-                    .generic_args
-                    .iter()
-                    .map(|generic_arg| extract_matches!(generic_arg, GenericArg::Type).clone()),
-            );
+            stack.extend(get_gate_inputs(long_id)?.into_iter().cloned());
         }
     }
 
